@@ -6,6 +6,7 @@
 import XotModel.Driver.Entity
 import XotModel.Driver.Tree
 import XotModel.Driver.Forest
+import XotModel.Driver.IdMap
 
 open XotModel.Driver
 
@@ -14,6 +15,7 @@ def dispatch (st : DState) (line : String) : DState × String :=
   | "vocab" :: rest => (handleVocab st rest).getD (st, "bad-request")
   | "entity" :: rest => (st, (handleEntity rest).getD "bad-request")
   | "tree" :: rest => (st, (handleTree rest).getD "bad-request")
+  | "idmap" :: rest => (handleIdMap st rest).getD (st, "bad-request")
   | _ => (st, "bad-request")
 
 structure MState where
